@@ -151,7 +151,7 @@ def programs(shard, seed):
                                "max_k": max_k}
 
 
-def run_case(prog, res=None):
+def run_case(prog, res=None, model=None):
     lab = list(prog["labels"])
     n = len(lab)
     if prog["model"] == "KNNSupervisedOPF":
@@ -174,7 +174,7 @@ def run_case(prog, res=None):
         return None
     # supervised
     try:
-        m, Wd = sup.fit_program(prog)
+        m, Wd = sup.fit_program(prog, model=model)
     except Horizon:
         raise
     except Exception as ex:
@@ -219,6 +219,13 @@ def viol(prog, prob, sym):
             "explanation": prob, "fingerprint": "%s: %s" % (site, sym)}
 
 
+_PREV = {}
+
+
+def _key(prog):
+    return sup.cache_key(prog) if prog["model"] in ("SupervisedOPF", "SemiSupervisedOPF") else None
+
+
 def run(shard, seed):
     res = Result()
     k = 0
@@ -235,11 +242,15 @@ def run(shard, seed):
             res.sample(prog, 1)
         k += 1
         if v:
+            prev = _PREV.get(_key(prog))
+            if prev is not None and "previous" not in v["program"]:
+                v["program"] = dict(v["program"], previous=prev)
             res.violations.append(v)
             if res.full:
                 break
+        _PREV[_key(prog)] = prog
     return res
 
 
 def replay(case):
-    return run_case(case["program"])
+    return sup.replay_with_history(run_case, case["program"])
